@@ -883,9 +883,12 @@ fn dec_round(rng: &mut Rng, log: &mut Vec<String>, obj: &mut Dec, kind: Kind, cf
     let got = obj.decode(&probes).map_err(|e| format!("decode returned {:?}", e))?;
     check_dec(&got, &data, &missing, "decode")?;
     let mut fresh = Dec::new(kind, cfg, None).map_err(|e| format!("fresh decoder {:?}", e))?;
-    for &it in &items { fresh.add(it.0, it.1, shard(it)).map_err(|e| format!("fresh decoder add {:?}", e))?; }
+    // the fresh decoder gets the same shard set in another arrival order (C11): descending / ascending indexes, recovery first or last
+    let mut other = items.clone();
+    match rng.below(4) { 0 => other.sort(), 1 => { other.sort(); other.reverse(); } 2 => other.sort_by(|a, b| (b.0, b.1).cmp(&(a.0, a.1)).reverse().then(std::cmp::Ordering::Equal)), _ => other.sort_by(|a, b| (a.0, std::cmp::Reverse(a.1)).cmp(&(b.0, std::cmp::Reverse(b.1)))) }
+    for &it in &other { fresh.add(it.0, it.1, shard(it)).map_err(|e| format!("fresh decoder add {:?}", e))?; }
     let want = fresh.decode(&probes).map_err(|e| format!("fresh decoder decode {:?}", e))?;
-    if got != want { return Err("result differs from a fresh decoder's".into()); }
+    if got != want { return Err(format!("result differs from that of a fresh decoder given the same shards in the order [{}]", other.iter().map(|&x| show(x)).collect::<Vec<_>>().join(","))); }
     if !o.again { return Ok(true); }
     // the result has been dropped: the same shards are accepted again and give the same result
     shuffle(rng, &mut items);
